@@ -56,6 +56,15 @@ def run(ctx):
     ctx.run_rule("R8-space-check", c04.r3_space_check, F)
     ctx.counts["R8-space-check"] = ctx.counts.get("R3-space-check", 0)
     ctx.run_rule("R9-remap", r9_remap, F)
+    # reviewed `unwrap()`s of the INIT compat replies rest on slice length == array length (C12.R3); the header/body split of
+    # a reply buffer must cut at the remainder inside the buffer that holds the split point (C04.R3-split)
+    from rules import c12
+    vf.NOUPD[0] = True
+    try:
+        ctx.run_rule("R3-layout", c12.r3_layout, F, json.load(open(c12.TABLE)))
+    finally:
+        vf.NOUPD[0] = False
+    ctx.run_rule("R3-split", c04.r3_split, F)
     ctx.assumptions += ["no undefined behaviour inside vm-memory/nix/std", "the filesystem behind the trait is out of scope",
                         "delivery by the kernel is out of scope"]
 
